@@ -117,6 +117,19 @@ type WriteGuard struct {
 	Src     string
 }
 
+// AccessGuard: `accessguard T.f: read E1; write E2` — every load / store of T.f in a function under contract
+// must happen in a state where E1 / E2 holds. Unlike `guarded`, the lock may live in another object: the
+// expressions are evaluated in the scope of the accessing function (its receiver, parameters, locals;
+// `self` is the object whose field is accessed).
+type AccessGuard struct {
+	PkgPath string
+	Struct  string
+	Field   string
+	Read    SExpr
+	Write   SExpr
+	Src     string
+}
+
 type SharedDecl struct {
 	PkgPath string
 	Struct  string // "" for package-level var
@@ -124,19 +137,20 @@ type SharedDecl struct {
 }
 
 type Contracts struct {
-	Funcs       map[string]*FuncContract // full key -> contract
-	Ifaces      map[string]*FuncContract // "<pkgpath>.<Iface>.<Method>"
-	Ghosts      map[string]*GhostFunc
-	Axioms      []*Axiom
-	Guards      []*GuardDecl
-	Shared      []*SharedDecl
-	LockInvs    []*LockInv
-	WriteGuards []*WriteGuard
-	Pure        map[string]bool // full function string
-	PurePkg     map[string]bool
-	Imports     map[string]map[string]string // pkgpath -> alias -> import path
-	Problems    []string
-	Files       []string
+	Funcs        map[string]*FuncContract // full key -> contract
+	Ifaces       map[string]*FuncContract // "<pkgpath>.<Iface>.<Method>"
+	Ghosts       map[string]*GhostFunc
+	Axioms       []*Axiom
+	Guards       []*GuardDecl
+	Shared       []*SharedDecl
+	LockInvs     []*LockInv
+	WriteGuards  []*WriteGuard
+	AccessGuards []*AccessGuard
+	Pure         map[string]bool // full function string
+	PurePkg      map[string]bool
+	Imports      map[string]map[string]string // pkgpath -> alias -> import path
+	Problems     []string
+	Files        []string
 }
 
 func newContracts() *Contracts {
@@ -370,6 +384,40 @@ func (cs *Contracts) parseContractFile(path, pkgPath string) error {
 				return
 			}
 			cs.WriteGuards = append(cs.WriteGuards, &WriteGuard{PkgPath: pkgPath, Struct: tm[0], Field: tm[1], E: e, Src: strings.TrimSpace(rest[i+1:])})
+			return
+		case "accessguard":
+			// accessguard T.f: read E1; write E2
+			i := strings.Index(rest, ":")
+			if i < 0 {
+				problem(ln, "accessguard: want `accessguard T.f: read E1; write E2`")
+				return
+			}
+			tm := strings.Split(strings.TrimSpace(rest[:i]), ".")
+			if len(tm) != 2 {
+				problem(ln, "accessguard: want T.f")
+				return
+			}
+			ag := &AccessGuard{PkgPath: pkgPath, Struct: tm[0], Field: tm[1], Src: strings.TrimSpace(rest[i+1:])}
+			for _, part := range strings.Split(rest[i+1:], ";") {
+				part = strings.TrimSpace(part)
+				var dst *SExpr
+				switch {
+				case strings.HasPrefix(part, "read "):
+					dst, part = &ag.Read, part[5:]
+				case strings.HasPrefix(part, "write "):
+					dst, part = &ag.Write, part[6:]
+				default:
+					problem(ln, "accessguard: want `read E` or `write E`, got %q", part)
+					return
+				}
+				e, err := parseSpec(part)
+				if err != nil {
+					problem(ln, "%v", err)
+					return
+				}
+				*dst = e
+			}
+			cs.AccessGuards = append(cs.AccessGuards, ag)
 			return
 		case "lockinv":
 			// lockinv T.mu: E   (E over `self`): holds whenever the mutex is free; assumed at acquisition, proved at release
